@@ -224,6 +224,12 @@ pub fn initial_states_d(t: Tier, with_big: bool) -> Vec<(Init, usize)> {
             exp.an.push(name_rec(&long, T_CNAME, i, &long));
         }
         v.push((Init::Packet(encode(&exp, Strategy::Max)), 1)); // ~1.3 KB on the wire, > 20 KB expanded
+        // the same growth hidden in record data only: every owner and the question spelled out, targets shared
+        let mut exp2 = base_msg(&ba, T_A, true);
+        for i in 0..40u32 {
+            exp2.an.push(name_rec(&a, T_CNAME, i, &long));
+        }
+        v.push((Init::Packet(encode(&exp2, Strategy::RdataOnly)), 1));
         // just below 65535 bytes: growing a name must fail with "too large"
         let mut near = r(vec![], vec![name_rec(&a, T_NS, 7, &ba)], vec![a_rec(&ba, 1, [1, 1, 1, 1]), opt[1].clone()]);
         near.an.push(a_rec(&a, 1, [1, 2, 3, 4]));
@@ -375,14 +381,18 @@ fn run(ctx: &mut Ctx, rep: &mut Report, mode: Mode) {
     for (i, (init, maxdepth)) in inits.iter().enumerate() {
         match init_snap(init) {
             Some(s) => {
+                let mut maxdepth = *maxdepth;
                 if let Err((sig, w)) = view_check(&s) {
                     if mode == Mode::C08 {
                         rep.violation(&format!("initial:{}", sig), w, json!({"initial": init_json(init), "ops": []}));
+                        continue;
                     }
-                    continue;
+                    // the parser's own view of this packet is already off (C08 reports that); what single
+                    // operations then do to the message and how they fail is still C09's and C10's business
+                    maxdepth = 1;
                 }
                 if seen.insert(fp(&s)) {
-                    nodes.push(Node { snap: s, parent: None, op: None, init: i, maxdepth: *maxdepth });
+                    nodes.push(Node { snap: s, parent: None, op: None, init: i, maxdepth });
                 }
             }
             None => rep.notes.push(format!("initial state {} could not be built", i)),
